@@ -52,7 +52,7 @@ CHECKS = {
         note="Trusted: M-stream, M-conn. Compliant client.",
         technique=TECH + ": deterministic executor + simulated transport, handler-visible reads vs. reference model"),
     "C10": dict(engine="D2+D5", cat="exploration", ref="DESIGN.md 4/C10",
-        text="1..3 writers on separately woken sub-futures plus a reader sub-future, seeded poll order, write sizes incl. 0/65535/65536+, flushes, a transport cutting every vectored write anywhere (inside the header, at the seam, inside padding) or returning Pending: the transport log must decode into complete records which, in completion order, equal the successful writes (type, id, payload, padding rule), with management replies as whole records. Writes are sometimes re-polled with a longer buffer than the one that set the record up, and a third of the runs inject one transient write error after which the writers retry (documented: the lock is kept and the record continued). Extra: 2..3 writers on different OS threads (strict poll-when-woken loops) under Miri's seeded scheduler, 32 / 2048 schedules, log decoded the same way.",
+        text="1..3 writers on separately woken sub-futures plus a reader sub-future, seeded poll order, write sizes incl. 0/65535/65536+, flushes, a transport cutting every vectored write anywhere (inside the header, at the seam, inside padding) or returning Pending: the transport log must decode into complete records which, in completion order, equal the successful writes (type, id, payload, padding rule), with management replies as whole records. Writes are sometimes re-polled with a longer buffer than the one that set the record up, and a third of the runs inject one transient write error after which the writers retry (documented: the lock is kept and the record continued). Extra: writers on different OS threads (strict poll-when-woken loops) plus a reader thread that drives the request's own reply flushing, over a transport that accepts 3 bytes per call, under Miri's seeded scheduler, 64 / 4096 schedules, log decoded the same way.",
         note="Trusted: wire decoder; completion order equals lock-release order in a single-threaded executor.",
         technique=TECH + ": deterministic executor with per-sub-future wakers + write-cutting transport, log decoded and compared"),
     "C11": dict(engine="D1+D2", cat="exploration", ref="DESIGN.md 4/C11",
@@ -64,11 +64,11 @@ CHECKS = {
         note="Trusted: two spin detectors - the executor step cap for tasks that are re-polled for ever, and a per-poll cap on transport calls (2 000 000) for a poll that keeps calling the transport without returning; a poll that loops without touching the transport would still hang the check. Handlers propagate I/O errors. The fault list also contains a flush error at every flush call; a share of the scripts use concurrent writer sub-tasks that are dropped where they stand when one fails.",
         technique=TECH + ": fault-point enumeration over a replayed seeded script (EOF / read error / write error / zero write at every index)"),
     "C14": dict(engine="D2+D3+D5", cat="exploration", ref="DESIGN.md 4/C14",
-        text="Connection side: Runner::shutdown requested as a scheduler event at a seeded step (before the first read, mid-preamble, during the handler, during close, between requests, idle); started requests complete with their EndRequest, no handler starts in a poll that begins after the request, idle connections stop without another transport read, the shutdown future is Ready only after the token is dropped and its task is woken for it. Wait group: real threads under a serialising scheduler (one baton, seeded choice of the next thread at every harness operation, Waker callback and verif-hooks point) explore the interleavings of token drops with polls of the shutdown future, including the last drop landing between the liveness check and the waker registration and between registration and the drop of the temporary reference; Ready never early, no lost wake-up. The same clause is additionally sampled under Miri's seeded scheduler (64 / 4096 schedules with preemption anywhere).",
+        text="Connection side: Runner::shutdown requested as a scheduler event at a seeded step (before the first read, mid-preamble, during the handler, during close, between requests, idle); started requests complete with their EndRequest, no handler starts in a poll that begins after the request, idle connections stop without another transport read, the shutdown future is Ready only after the token is dropped and its task is woken for it. Wait group: real threads under a serialising scheduler (one baton, seeded choice of the next thread at every harness operation, Waker callback and verif-hooks point) explore the interleavings of token drops with polls of the shutdown future, including the last drop landing between the liveness check and the waker registration and between registration and the drop of the temporary reference; Ready never early, no lost wake-up, and once Ready is seen a request on a clone of the runner (limit = number of tokens) is served at once (a dropped token no longer occupies its slot). The same clauses are additionally sampled under Miri's seeded scheduler (64 / 4096 schedules with preemption anywhere).",
         note="Trusted: executor strictness for the wake-up clauses; the thread scheduler is sequentially consistent and does not explore interleavings inside futures' AtomicWaker. A management reply being written by an idle connection may be cut by shutdown (statement is silent).",
         technique=TECH + ": deterministic executor with shutdown as a scheduled event + serialising thread scheduler (baton) over real threads"),
     "C13": dict(engine="D2+D5", cat="exploration", ref="DESIGN.md 4/C13",
-        text="Seeded histories over a runner (limit 1..4) and its clones: get_token futures created, polled with their own wakers, cancelled; tokens dropped unused, run to completion on simulated connections (client closes, one request, handler panic unwinding through Token::run); after every operation the live-token count is compared with the limit and, whenever a slot is free with requests queued, at least one queued request must have been woken since it last returned Pending; first-poll and woken-poll readiness are checked; requests are created by calling get_token() at creation time (created-but-unpolled futures are part of the histories) and connection tasks are advanced a few scheduler steps at a time between runner operations. The generator is biased towards two queued requests with two releases between polls (the coalescing shape). Thread clause: a program with a dropper thread and an acquirer polling queued get_token futures is interpreted by Miri under 64 (quick) / 4096 (thorough) seeded schedules with preemption anywhere; afterwards no slot may be free next to an un-woken pending request.",
+        text="Seeded histories over a runner (limit 1..4) and its clones: get_token futures created, polled with their own wakers, cancelled; tokens dropped unused, run to completion on simulated connections (client closes, one request, handler panic unwinding through Token::run); after every operation the live-token count is compared with the limit and, whenever a slot is free with requests queued, at least one queued request must have been woken since it last returned Pending; first-poll and woken-poll readiness are checked; requests are created by calling get_token() at creation time (created-but-unpolled futures are part of the histories) and connection tasks are advanced a few scheduler steps at a time between runner operations. The generator is biased towards two queued requests with two releases between polls (the coalescing shape). Thread clause: a program with a dropper thread and an acquirer polling queued get_token futures is interpreted by Miri under 32 (quick) / 2048 (thorough) seeded schedules with preemption anywhere; the scenario's wakers yield in their clone/wake/drop callbacks and a gate lets the other thread act (drop a token, queue a new request) at the instant a cancelled request releases its waker; afterwards no slot may be free next to an un-woken pending request.",
         note="Trusted: nothing inside async-lock/event-listener is modelled; they run as real code; in the history driver interleavings inside them are not explored (single thread, operation granularity), in the Miri extra they are (sampled by seed, sequentially consistent plus Miri's weak-memory emulation).",
         technique=TECH + ": seeded operation histories with per-future wakers against a counter model"),
 }
